@@ -286,7 +286,6 @@ ONE={
 "C07-A12":("sync `remove_expired_ao`: `remove(key)` instead of `remove_if(expired)` (as C07-A2)","the sweep between node check and map removal while another thread re-inserts the key after invalidate_all"),
 "C07-B12":("sync update raises its timestamp to the entry's later last_modified (as C07-A11)","an insert that read the clock before invalidate_all lands after a competing insert of the key"),
 "C09-A12":("sync `evict_lru_entries`: skipped (dirty) nodes no longer count against the batch (as C09-B2)","over capacity, the only remaining LRU node made dirty by another thread between apply-writes and the eviction loop"),
-"C09-B12":("housekeeping hoisted out of the write retry loop (as C09-A3)","queue filled by others while the flag holder is past its drain"),
 "C10-A12":("sync `invalidate` queues no Remove op for a not yet admitted entry (as C10-B7)","invalidate between the currency check and `set_admitted(true)` of `handle_upsert`"),
 "C10-B12":("sync `handle_upsert`: the admitted-entry update path moved above the stale-op guard (as C03-A11)","two writers update one admitted key, ops queued in the opposite order of the map updates"),
 "C11-A12":("sync `invalidate` queues no Remove op for a not yet admitted entry (as C10-B7)","as C10-A12"),
@@ -495,7 +494,30 @@ reported by C17 (the documented build panic is missing), `C01-A11` by the STRESS
 of C07, `C11-A11` (as `C10-B7`) by the STRESS of C10 / C11 with some probability
 per run.
 
+Twelfth round (ids ending in `12`; only the properties about concurrent use: C02,
+C04, C07, C09, C10, C11, C16; both changes had to need real concurrency, one of
+them a specific interleaving with a thread inside a maintenance run). 13 changes
+kept (`C09-B12`, housekeeping hoisted out of the write retry loop, made the
+repository's own suite hang here and was dropped). The authors parked threads
+deterministically through the key type's `Hash` / the value's `Clone` and `Drop`,
+i.e. inside DashMap calls and inside maintenance, where SCHED has no switch
+point; the checks met those changes through STRESS (with the machine otherwise
+idle: `C01-A11` 3 of 3 runs, `C11-A11` 2 of 2) and through their sequential or
+litmus shadows. Strengthened after a miss: `C02-B12` (the single-writer STRESS
+workload of C02 also runs with a 40 µs time_to_live, so that the expiry sweep
+works on keys while their writers rewrite them), `C11-B12` (litmus program
+"insert || fill the write queue; invalidate": an invalidation that meets a full
+write queue while another thread is paused inside its maintenance run; reported
+by C10 and C11 after quiescence).
+
 Not caught (or caught only elsewhere), with the reason:
+* `C04-A12` — like `C10-B3`: another thread has to act between two adjacent
+  statements of `handle_upsert`, where SCHED has no switch point; the fixed work
+  of the STRESS workloads did not hit the window.
+* `C16-B12` — needs the Remove op of an invalidation to be applied after the
+  re-insert of the key, i.e. an invalidate that overlaps the re-insert; for
+  overlapping writes the completeness oracles are undecided about which of the
+  two wins, and a `get` that shows nothing is always acceptable to C02.
 * `C15-B11` — `C15-B2` again (needs an extra contains_key while the single-threaded
   cache is over capacity: the trigger state of the open known finding U4).
 * `C14-A10` — a full read queue discards the *oldest* queued lookup instead of the
